@@ -96,6 +96,7 @@ def check_adapters_columnwise(ctx):
 def check(ctx):
     check_agg(ctx)
     check_adapters_columnwise(ctx)
+    ctx.guard("C12.a SYMMETRIC-AGG", "affected-components", lambda: shared_subset(ctx))
     ctx.guard("C12.b NF-INVARIANCE", "costs", lambda: check_invariance(ctx))
     ctx.guard("C12.c NF-REVERSAL", "scores", lambda: check_reversal(ctx))
     ctx.expect_min("C12.a SYMMETRIC-AGG", sum(1 for o in ctx.obs if o.rule == "C12.a SYMMETRIC-AGG" and o.status == "HOLDS"), 5)
@@ -103,6 +104,30 @@ def check(ctx):
 
 
 # ------------------------------------------------------------- SYMMETRIC-AGG
+
+
+def shared_subset(ctx):
+    """MVCAPA's affected columns are chosen by sorting the per-column savings and charging beta_j to the j-th LARGEST
+    saving (C16.a SUBSET-NF): a rule in which column identity enters only through the savings, hence equivariant under
+    column permutations.  Charging beta_j to COLUMN j instead breaks the equivariance.  C16.a re-run under the C12 id."""
+    from . import c16
+
+    before = len(ctx.obs)
+    mins = dict(ctx.mins)
+    try:
+        c16.check(ctx)
+    except Undecided as u:
+        ctx.undecided("C12.a SYMMETRIC-AGG", "affected-components", "", str(u))
+    ctx.mins = mins
+    kept = []
+    for o in ctx.obs[before:]:
+        if o.status == "UNDECIDED" and o.key == "instance-count":
+            continue
+        if "SUBSET-NF" in o.rule or o.status == "UNDECIDED":
+            o.rule = f"C12.a SYMMETRIC-AGG ({o.rule})"
+            kept.append(o)
+    ctx.obs[before:] = kept
+
 
 DETECTORS = [
     ("skchange.change_detectors", "PELT", "_predict"),
@@ -358,10 +383,51 @@ def kernel_nf(ctx, pkg, clsname, width, ctor_args=None):
 
     paths = run(ctx, ex, thunk)
     rets = returns(paths)
-    if len(rets) != 1:
-        raise Undecided(f"{clsname}: {len(rets)} returning paths")
-    v = rets[0].value
-    return ex.cur_nf(v), cls
+    if not rets:
+        raise Undecided(f"{clsname}: no returning path")
+    out = []
+    for k, r in enumerate(rets):
+        nf = ex.cur_nf(r.value)
+        _only_prefix_sums(nf, clsname)
+        if not any(nf_equal(nf, o) for _, o in out):
+            out.append((f"#{k}" if len(rets) > 1 else "", nf))
+    return out, cls
+
+
+def _only_prefix_sums(nf, clsname):
+    """The substitution arguments below transform the data by rewriting its prefix sums; they say nothing about a value
+    that reads the data in any other way (a slice mean, a direct sum, ...): such a kernel is not decided here."""
+
+    def walk(x, under_prefix):
+        if isinstance(x, NF):
+            for pnum in (x.num, x.den):
+                for m in pnum:
+                    for a, _ in m:
+                        walk(a, under_prefix)
+        elif isinstance(x, Atom):
+            if x.kind == "sym" and x.args[0] == "X" and not under_prefix:
+                raise Undecided(f"{clsname}: the kernel value reads the data other than through its prefix sums (not decidable by the prefix-sum substitution)")
+            if x.kind == "P":
+                from ..nf import poly_of_P
+
+                walk(NF(poly_of_P(x)), under_prefix)
+                return
+            up = under_prefix or (x.kind == "app" and x.args and x.args[0] in ("prefix0", "prefix"))
+            for y in x.args:
+                walk(y, up)
+        elif isinstance(x, (tuple, list)):
+            for y in x:
+                walk(y, under_prefix)
+
+    walk(nf, False)
+
+
+def _each(ctx, specs):
+    """(class name, path tag, value NF, class) for every distinct returning value of every listed kernel"""
+    for pkg, clsname, width in specs:
+        nfs, cls = kernel_nf(ctx, pkg, clsname, width)
+        for tag, nf in nfs:
+            yield clsname, tag, nf, cls
 
 
 def PS(k):
@@ -411,16 +477,15 @@ def check_invariance(ctx):
     c, a = sym("c"), sym("a")
     cols2 = declare_cut_order(2)
     s, e = cols2
-    for clsname in ("L2Cost", "GaussianVarCost"):
-        nf, cls = kernel_nf(ctx, "skchange.costs", clsname, 2)
+    for clsname, tag, nf, cls in _each(ctx, [("skchange.costs", "L2Cost", 2), ("skchange.costs", "GaussianVarCost", 2)]):
         loc = cls.module.relpath
         sh = subst(nf, shift_map(cols2, c))
-        ctx.check(nf_equal(sh, nf), rule, f"{clsname}|shift", loc, "optimal-parameter cost is unchanged by adding a constant to a column", found=repr(sh - nf) if not nf_equal(sh, nf) else "difference 0", expected="0")
+        ctx.check(nf_equal(sh, nf), rule, f"{clsname}|shift{tag}", loc, "optimal-parameter cost is unchanged by adding a constant to a column", found=repr(sh - nf) if not nf_equal(sh, nf) else "difference 0", expected="0")
         if clsname == "GaussianVarCost":
             base = drop_floor(nf)
             sc = drop_floor(subst(base, scale_map(cols2, a)))
             want = (e - s) * 2 * nf_log(a)
-            ctx.check(nf_equal(sc - base, want), rule, f"{clsname}|scale", loc, "scaling a column by a > 0 adds exactly N log a^2 to the Gaussian cost (which cancels in change and local anomaly scores)", found=repr(sc - base), expected=repr(want))
+            ctx.check(nf_equal(sc - base, want), rule, f"{clsname}|scale{tag}", loc, "scaling a column by a > 0 adds exactly N log a^2 to the Gaussian cost (which cancels in change and local anomaly scores)", found=repr(sc - base), expected=repr(want))
             # the cancellation in the change score and the local anomaly score: lengths add up
             s3 = declare_cut_order(3)
             d3 = ((s3[2] - s3[0]) - (s3[1] - s3[0]) - (s3[2] - s3[1])) * 2 * nf_log(a)
@@ -430,15 +495,15 @@ def check_invariance(ctx):
             ctx.check(d4.is_zero(), rule, "LocalAnomalyScore(Gaussian)|scale", "skchange/anomaly_scores/from_cost.py", "N(s,e) - N(a,b) - N(surroundings) == 0: the scale term cancels in the local anomaly score", found=repr(d4))
         else:
             sc = subst(nf, scale_map(cols2, a))
-            ctx.check(nf_equal(sc, a * a * nf), rule, f"{clsname}|scale", loc, "the squared-error cost is homogeneous of degree 2 under scaling (argmin sets unchanged)", found=repr(sc), expected=repr(a * a * nf), nontrivial=True)
+            ctx.check(nf_equal(sc, a * a * nf), rule, f"{clsname}|scale{tag}", loc, "the squared-error cost is homogeneous of degree 2 under scaling (argmin sets unchanged)", found=repr(sc), expected=repr(a * a * nf), nontrivial=True)
     cols3 = declare_cut_order(3)
-    nf, cls = kernel_nf(ctx, "skchange.change_scores", "CUSUM", 3)
-    sh = subst(nf, shift_map(cols3, c))
-    ctx.check(nf_equal(sh, nf), rule, "CUSUM|shift", cls.module.relpath, "CUSUM is unchanged by adding a constant to a column (the two weights times the two lengths cancel)", found=repr(sh), expected=repr(nf))
+    for clsname, tag, nf, cls in _each(ctx, [("skchange.change_scores", "CUSUM", 3)]):
+        sh = subst(nf, shift_map(cols3, c))
+        ctx.check(nf_equal(sh, nf), rule, f"CUSUM|shift{tag}", cls.module.relpath, "CUSUM is unchanged by adding a constant to a column (the two weights times the two lengths cancel)", found=repr(sh), expected=repr(nf))
     # adapters inherit invariance from their cost: they are differences of cost evaluations (rule C06.a)
-    nf, cls = kernel_nf(ctx, "skchange.anomaly_scores", "L2Saving", 2)
-    sc = subst(nf, scale_map(cols2, a))
-    ctx.check(nf_equal(sc, a * a * nf), rule, "L2Saving|scale", cls.module.relpath, "the L2 saving is homogeneous of degree 2 under scaling", found=repr(sc), nontrivial=True)
+    for clsname, tag, nf, cls in _each(ctx, [("skchange.anomaly_scores", "L2Saving", 2)]):
+        sc = subst(nf, scale_map(cols2, a))
+        ctx.check(nf_equal(sc, a * a * nf), rule, f"L2Saving|scale{tag}", cls.module.relpath, "the L2 saving is homogeneous of degree 2 under scaling", found=repr(sc), nontrivial=True)
 
 
 def check_reversal(ctx):
@@ -457,17 +522,16 @@ def check_reversal(ctx):
         return mp
 
     cols3 = declare_cut_order(3)
-    nf, cls = kernel_nf(ctx, "skchange.change_scores", "CUSUM", 3)
-    mr = subst(nf, mirror_map(cols3))
-    ctx.check(nf_equal(mr, nf), rule, "CUSUM", cls.module.relpath, "CUSUM of the mirrored cut (n-e, n-k, n-s) on the time-reversed data equals CUSUM of (s, k, e)", found=repr(mr), expected=repr(nf))
+    for clsname, tag, nf, cls in _each(ctx, [("skchange.change_scores", "CUSUM", 3)]):
+        mr = subst(nf, mirror_map(cols3))
+        ctx.check(nf_equal(mr, nf), rule, f"CUSUM{tag}", cls.module.relpath, "CUSUM of the mirrored cut (n-e, n-k, n-s) on the time-reversed data equals CUSUM of (s, k, e)", found=repr(mr), expected=repr(nf))
     cols2 = declare_cut_order(2)
-    for clsname in ("L2Cost", "GaussianVarCost"):
-        nf, cls = kernel_nf(ctx, "skchange.costs", clsname, 2)
+    for clsname, tag, nf, cls in _each(ctx, [("skchange.costs", "L2Cost", 2), ("skchange.costs", "GaussianVarCost", 2)]):
         mr = subst(nf, mirror_map(cols2))
-        ctx.check(nf_equal(mr, nf), rule, clsname, cls.module.relpath, "the cost of the mirrored interval on the reversed data equals the cost of the interval", found=repr(mr)[:300], expected=repr(nf)[:300])
-    nf, cls = kernel_nf(ctx, "skchange.anomaly_scores", "L2Saving", 2)
-    mr = subst(nf, mirror_map(cols2))
-    ctx.check(nf_equal(mr, nf), rule, "L2Saving", cls.module.relpath, "the saving of the mirrored interval on the reversed data equals the saving of the interval", found=repr(mr)[:300])
+        ctx.check(nf_equal(mr, nf), rule, clsname + tag, cls.module.relpath, "the cost of the mirrored interval on the reversed data equals the cost of the interval", found=repr(mr)[:300], expected=repr(nf)[:300])
+    for clsname, tag, nf, cls in _each(ctx, [("skchange.anomaly_scores", "L2Saving", 2)]):
+        mr = subst(nf, mirror_map(cols2))
+        ctx.check(nf_equal(mr, nf), rule, f"L2Saving{tag}", cls.module.relpath, "the saving of the mirrored interval on the reversed data equals the saving of the interval", found=repr(mr)[:300])
     # symmetric moving window
     from . import c08
 
